@@ -3,6 +3,7 @@ package main
 import (
 	"fmt"
 	"go/ast"
+	"go/token"
 	"go/types"
 )
 
@@ -10,7 +11,7 @@ func init() {
 	register(&propDef{
 		id: "C33", title: "Relocation accounts for every item and runs once per departure",
 		technique: "lockset + test-and-insert rule on the job table, guard dominance (dispatch only by the winner of beginRelocation), release pairing on error edges, who-may-call on job release, path rule for the worker (every exit releases the job; at most one failure event)",
-		explanation: "Decides: (1) the relocation job table is accessed only under its mutex and beginRelocation is a test-and-insert in one critical section; (2) a Rebalance is dispatched to the relocator only on the edge where beginRelocation returned true; the losing edge returns without dispatch or RelocationStarted event; a failed dispatch releases the job again; (3) endRelocation is called only by the worker's finish, the worker's stopping-system exit, the relocator's abort path and the two dispatch error edges; every exit of relocationWorker.relocate reaches finish or endRelocation exactly once; (4) one relocate/abort path publishes at most one RelocationFailed event, built from the merged failure set; (5) worker death: the relocator aborts only when the registered job is the dead worker's own snapshot (pointer identity). Added after seed C33a: on completion and on abort the departed node's stored snapshot is deleted before the relocation job is released. Added after seed C33b: every site that builds a peers address from a PeerState for use as a key (job registry, store, events) builds it with net.JoinHostPort; a differently formatted string may only be logged.",
+		explanation: "Decides: (1) the relocation job table is accessed only under its mutex and beginRelocation is a test-and-insert in one critical section; (2) a Rebalance is dispatched to the relocator only on the edge where beginRelocation returned true; the losing edge returns without dispatch or RelocationStarted event; a failed dispatch releases the job again; (3) endRelocation is called only by the worker's finish, the worker's stopping-system exit, the relocator's abort path and the two dispatch error edges; every exit of relocationWorker.relocate reaches finish or endRelocation exactly once; (4) one relocate/abort path publishes at most one RelocationFailed event, built from the merged failure set; (5) worker death: the relocator aborts only when the registered job is the dead worker's own snapshot (pointer identity). Added after seed C33a: on completion and on abort the departed node's stored snapshot is deleted before the relocation job is released. Added after seed C33b: every site that builds a peers address from a PeerState for use as a key (job registry, store, events) builds it with net.JoinHostPort; a differently formatted string may only be logged. Also: in recreateActorFromWire the respawn is reachable only over the edge on which releaseDepartedEntry reported 'proceed' (the record still named the departed node).",
 		assumptions: []string{"'every relocated item ends up running on exactly one survivor' is a distributed outcome", "per-item accounting inside enqueueRelocation/relocateShare is covered only through the shared failure collector"},
 		minObl:     18,
 		run:        runC33,
@@ -189,6 +190,42 @@ func runC33(c *Ctx) {
 		if n < 2 {
 			c.Undecided("delete≺release/sites", "completion and abort paths found", "-", "found "+itoa(n))
 		}
+	})
+
+	c.Rule("recreate-gated", func() {
+		// An ordinary actor of a departed node is respawned only after its registry record was released for that node:
+		// releaseDepartedEntry reports (proceed, err); the respawn is reachable only over the edge on which it returned no
+		// error AND proceed (the record still named the departed node). A stale re-run that finds the record pointing at
+		// a survivor must not respawn a second copy.
+		fn := c.Func("actor", "actorSystem.recreateActorFromWire")
+		f := c.NewFlow(fn)
+		info := f.Info
+		rel := c.FuncObj("actor", "actorSystem.releaseDepartedEntry")
+		spawn := f.CallTo(c.FuncObj("actor", "actorSystem.spawnRelocatedActor"))
+		var proceedObj types.Object
+		ast.Inspect(fn.Decl.Body, func(n ast.Node) bool {
+			if as, ok := n.(*ast.AssignStmt); ok && len(as.Lhs) == 2 && len(as.Rhs) == 1 && as.Tok == token.DEFINE {
+				if call, ok := as.Rhs[0].(*ast.CallExpr); ok && callee(info, call) == rel {
+					proceedObj = objOf(info, as.Lhs[0])
+				}
+			}
+			return true
+		})
+		if proceedObj == nil || len(f.Find(spawn)) == 0 {
+			c.Undecided("respawn-only-if-released", "the respawn is gated on releaseDepartedEntry", c.P.Pos(fn.Decl.Pos()), "gate or respawn not found")
+			return
+		}
+		proceed := f.BoolEdges(func(e ast.Expr) bool { id, ok := e.(*ast.Ident); return ok && info.ObjectOf(id) == proceedObj }, true)
+		c.guardedBy(f, proceed, spawn, "respawn-only-if-released", "a departed node's actor is respawned only over the edge on which releaseDepartedEntry reported that the record still named the departed node", c.P.Pos(fn.Decl.Pos()))
+		this := func(n ast.Node) bool {
+			call, ok := n.(*ast.CallExpr)
+			if !ok || callee(info, call) != rel {
+				return false
+			}
+			// the gating call: the one whose results are bound to (proceed, err)
+			return true
+		}
+		_ = this
 	})
 
 	c.Rule("address-key", func() {
